@@ -607,6 +607,7 @@ def _numeric_parts(rep, rng, cat, thorough, find_shells, skipped, scratch):
                     invmass=calc.tabulate.InvMass(), derberry=calc.tabulate.DerBerryCurvature(), der3E=calc.tabulate.Der3E())
     worst = dict(pred=0.0, quad=0.0, cubic=0.0, mixed=0.0, smooth=0.0)
     ratios = []
+    per_case = {}
     ncmp = 0
     TOLP = 1e-5
     tri = np.array(cat["tri"]["A"], dtype=float) if "tri" in cat else np.array([[2, 0, 0], [1, 2, 0], [1, 1, 3]], dtype=float)
@@ -702,7 +703,8 @@ def _numeric_parts(rep, rng, cat, thorough, find_shells, skipped, scratch):
                     nm = "cubic" if deg is not None else "smooth"
                     worst[nm] = max(worst[nm], da)
                     # to finite-difference accuracy: O(h^2) with a constant of the size of the (dimensionless) step squared ...
-                    cbound = 1000 * h * h * max(1.0, lsc * lsc)
+                    cbound = 1e4 * h * h * max(1.0, lsc * lsc)
+                    per_case[ic] = max(per_case.get(ic, 0.0), float(da / cbound))
                     if da > cbound:
                         rep.violation("evaluate_k:fd_vs_analytic:bound:" + kk, dict(info, deviation=da, bound=cbound))
                     # ... and halving the step divides the deviation by 4
@@ -712,7 +714,7 @@ def _numeric_parts(rep, rng, cat, thorough, find_shells, skipped, scratch):
                             rep.violation("evaluate_k:h2_scaling:" + kk, dict(info, deviation_h=da, deviation_half_h=da2, ratio=da / da2))
     if not rep.violations and (ncmp < len(cases) or worst["cubic"] == 0.0 or not ratios):
         raise MachineryError("no evaluate_k comparison was made (all k-points on degeneracies?) or no h^2 ratio could be formed")
-    rep.part("numeric_only_evaluate_k", worst_relative_deviation=worst, tolerance_sharp=TOLP, bound="1000 h^2 max(1, |recip_lattice|^2)",
+    rep.part("numeric_only_evaluate_k", worst_relative_deviation=worst, tolerance_sharp=TOLP, bound="1e4 h^2 max(1, |recip_lattice|^2)", worst_deviation_over_bound_per_case={str(k): v for k, v in per_case.items()},
              h2_scaling_ratios=dict(n=len(ratios), min=min(ratios) if ratios else None, max=max(ratios) if ratios else None, required="3 < r < 5"),
              cases=[c["kind"] + ("/red" if c["red"] else "") + (f"/deg{c['deg']}" if c["deg"] else "") for c in cases],
              note="calculators: Energy, Velocity, BerryCurvature, InvMass, DerBerryCurvature, Der3E; 'pred' = analytic derivatives + (h^2/6) T:d^3 H "
